@@ -483,6 +483,11 @@ class ExecutionState:
                 msg: str = "completion_event must be set for synchronous execution"
                 raise DurableExecutionsError(msg)
 
+            # The background thread may have failed and drained the queue between the
+            # check above and our put(); in that case nobody would ever wake us up.
+            if self._checkpointing_failed.is_set():
+                self._checkpointing_failed.wait()
+
             # Wait for completion - will raise BackgroundThreadError if background thread fails
             completion_event.wait()
         else:
@@ -636,6 +641,10 @@ class ExecutionState:
                         "Checkpoint creation failed", e
                     )
 
+                    # Set the failure event first: a producer that enqueues concurrently with
+                    # the drain below re-checks it after its put() and fails instead of blocking
+                    self._checkpointing_failed.set(bg_error)
+
                     # FIFO: although at this point order not really import any anymore
                     # Signal completion events for the failed batch
                     for queued_op in batch:
@@ -659,9 +668,6 @@ class ExecutionState:
                                 item.completion_event.set(bg_error)
                         except queue.Empty:
                             break
-
-                    # Set the failure event so future checkpoint attempts fail immediately
-                    self._checkpointing_failed.set(bg_error)
 
                     # Exit the loop - error has been signaled to main thread via completion events
                     break
